@@ -621,3 +621,8 @@ PROPS["C18"]["claim"] += (" END TO END: generated_session_SendCommand_accounting
 PROPS["C05"]["proofs"] = PROPS["C05"]["proofs"] + ["Bmc.Proofs.EndToEnd.SafeC05"]
 PROPS["C05"]["claim"] += (" END TO END: generated_*_safe (Proofs/EndToEnd/SafeC05.lean; 30 theorems) — every DecodeFromBytes AS TRANSLATED ON THIS RUN, and the cipher-suite record parser, "
                           "from any receiver content on any Go slice, never ends in a panic, a read beyond len or an exhausted loop fuel.")
+PROPS["C10"]["proofs"] = PROPS["C10"]["proofs"] + ["Bmc.Proofs.EndToEnd.SessionlessC10"]
+PROPS["C10"]["claim"] += (" generated_sessionless_SendCommand_retries / _until_final (Proofs/EndToEnd/SessionlessC10.lean): outside a session SendCommand AS TRANSLATED ON THIS RUN hands the "
+                          "transport the SAME datagram as many times as the contract says (one more per lost / undecodable / stray / temporary reply, none after a final answer).")
+PROPS["C14"]["claim"] += (" generated_RetrieveSDRRepository_snapshot (same file): a repository returned by RetrieveSDRRepository AS TRANSLATED, against a device whose records may change "
+                          "under the walk, is the Full Sensor Record set of ONE device state (the one the run ended in), never a mixture.")
